@@ -203,18 +203,28 @@ def gen_float(rnd):
         if math.isfinite(x): return x
 
 
+def repeats(rnd, xs):
+    """elements that occur more than once: the last one again in the middle, the first one again at the end, all equal"""
+    if len(xs) >= 2 and rnd.random() < 0.35:
+        m = rnd.random()
+        if m < 0.4: xs[rnd.randrange(len(xs) - 1)] = xs[-1]
+        elif m < 0.7: xs[-1] = xs[0]
+        else: xs = [xs[0]] * len(xs)
+    return xs
+
+
 def gen_array(rnd, depth, stats):
     n = rnd.choice([0, 0, 1, 1, 2, 3, 5, 17, 64])
     k = rnd.choice(["AI", "AI", "AF", "AS", "AB", "AN", "AO"] if depth > 0 else ["AI", "AI", "AF", "AS", "AB", "AN"])
     if k == "AI":
         w = rnd.choice(list(WIDTHS)); lo, hi = WIDTHS[w]
-        return ("AI", w, [gen_int(rnd, lo, hi) for _ in range(n)])
-    if k == "AF": return ("AF", [gen_float(rnd) for _ in range(n)])
+        return ("AI", w, repeats(rnd, [gen_int(rnd, lo, hi) for _ in range(n)]))
+    if k == "AF": return ("AF", repeats(rnd, [gen_float(rnd) for _ in range(n)]))
     if k == "AS":
         xs = []
         for _ in range(n):
             s, c = gen_string(rnd); stats["str_" + c] = stats.get("str_" + c, 0) + 1; xs.append(s)
-        return ("AS", xs)
+        return ("AS", repeats(rnd, xs))
     if k == "AB": return ("AB", [rnd.random() < 0.5 for _ in range(n)])
     if k == "AN": return ("AN", n)
     n = min(n, 5)
